@@ -211,6 +211,24 @@ def check_computed(case):
     return v, 'ok' if not v else 'violated', True
 
 
+def check_find_replace2(case):
+    """Two listed fields (+1 unlisted): a null in one field must not affect the others."""
+    fields = ['s', 'w', 'u']
+    rows = [{'s': a, 'w': b, 'u': 'keep'} for a, b in case['vals']]
+    st, other = state(fields, rows)
+    label = 'find_replace([s, w], a->z) on %r' % (case['vals'],)
+
+    def rep(v):
+        return None if v is None else re.sub('a', 'z', str(v))
+    spec = [{'name': 's', 'patterns': [{'find': 'a', 'replace': 'z'}]}, {'name': 'w', 'patterns': [{'find': 'a', 'replace': 'z'}]}]
+    kind, out = run_step(st, core.dataflows.find_replace(spec, resources='t'))
+    if kind == 'exc':
+        return [('raises/find_replace', '%s raises %s' % (label, core.exc_sig(out)))], 'violated', True
+    exp_rows = [{'s': rep(r['s']), 'w': rep(r['w']), 'u': 'keep'} for r in rows]
+    v = base_checks(label, 'find_replace', out, other, fields, exp_rows)
+    return v, 'ok' if not v else 'violated', True
+
+
 def check_find_replace(case):
     fields = ['s', 'u']
     vals, pats = case['vals'], case['pats']
@@ -241,13 +259,17 @@ def cases(tier):
     out = []
     fieldsets = [list(c) for n in (2, 3) for c in itertools.combinations(NAMES, n)]
     for fs in fieldsets:
-        reqs = [[a] for a in fs] + [[a, b] for a in fs for b in fs if a != b] + [['a|b'], ['b', 'a.*']]
+        reqs = [[a] for a in fs] + [[a, b] for a in fs for b in fs if a != b] + [['a|b'], ['b', 'a.*']] + \
+            [[a, a] for a in fs[:2]] + [[fs[-1], '.*'], ['a.*', fs[0]], ['.*', '.*']]      # overlapping requests
         for req in reqs:
             for regex in (True, False):
                 out.append({'proc': 'select', 'fields': fs, 'req': req, 'regex': regex})
                 out.append({'proc': 'delete', 'fields': fs, 'req': req, 'regex': regex})
         maps = [[[a, 'z']] for a in fs] + [[['a(.*)', r'x\1']], [['(.+)', r'\1_']], [[fs[0], fs[1]]],
-                                            [[fs[0], 'n1'], [fs[1], 'n2']], [['a|b', 'w']]]
+                                            [[fs[0], 'n1'], [fs[1], 'n2']], [['a|b', 'w']],
+                                            [[fs[0], fs[1]], [fs[1], fs[0]]],            # swap
+                                            [[fs[0], fs[1]], [fs[1], 'n3']],             # chain
+                                            [[fs[1], 'n3'], [fs[0], fs[1]]]]             # chain, other order
         for mp in maps:
             for regex in (True, False):
                 out.append({'proc': 'rename', 'fields': fs, 'map': mp, 'regex': regex})
@@ -264,6 +286,10 @@ def cases(tier):
         for n in (1, 2):
             for vals in itertools.product(texts, repeat=n):
                 out.append({'proc': 'find_replace', 'vals': list(vals), 'pats': ps})
+    cells = ['abc', None, 'xa']
+    for n in (1, 2):
+        for vals in itertools.product(itertools.product(cells, repeat=2), repeat=n):
+            out.append({'proc': 'find_replace2', 'vals': [list(v) for v in vals]})
     return out
 
 
